@@ -47,7 +47,7 @@ ASSUMPTIONS = [
 
 
 def cases(rng, tier):
-    return S.gen_define_cases(rng, tier, 150 if tier == "quick" else 3000)
+    return S.gen_define_cases(rng, tier, 900 if tier == "quick" else 9000)
 
 
 def search_cases(rng, tier):
